@@ -6,11 +6,12 @@ pub mod c10;
 pub mod c11;
 pub mod c12;
 pub mod c13;
+pub mod c15;
 
 use crate::engine::Property;
 
 pub fn all_ids() -> Vec<&'static str> {
-    vec!["C02", "C03", "C04", "C10", "C11", "C12", "C13"]
+    vec!["C02", "C03", "C04", "C10", "C11", "C12", "C13", "C15"]
 }
 
 pub fn get(id: &str) -> Option<Property> {
@@ -22,6 +23,7 @@ pub fn get(id: &str) -> Option<Property> {
         "C11" => Some(c11::property()),
         "C12" => Some(c12::property()),
         "C13" => Some(c13::property()),
+        "C15" => Some(c15::property()),
         _ => None,
     }
 }
